@@ -953,7 +953,7 @@ Proof.
   eexists. eexists. split; [vm_compute; reflexivity|]. split; vm_compute; reflexivity.
 Qed.
 
-(* F16: with debug assertions the contract violation is a panic, without them an inverted span *)
+(* F25: with debug assertions the contract violation is a panic, without them an inverted span *)
 Lemma recover_contract_violation :
   exists s, p_recover 0 true s = PCrash /\
     exists s', p_recover_noassert 0 true s = POk s' /\
